@@ -47,7 +47,7 @@ type posResult struct {
 
 // transformList renders the list and returns one result per record position (nil + reason if the run did not end in EOF
 // after exactly len(list) results).
-func transformList(c *core.Ctx, k *gen.Kit, schema []byte, recs []gen.Rec, o gen.RenderOpts) ([]posResult, string, []byte) {
+func transformList(c *core.Ctx, k *gen.Kit, schema []byte, recs []gen.Rec, o gen.RenderOpts, wantResults ...int) ([]posResult, string, []byte) {
 	r := core.NewRand(uint64(len(recs))*7919 + 13) // formatting choices inside Render must not depend on the list order
 	input := k.Render(r, recs, o)
 	s, err := omni.NewSchema(schema)
@@ -59,14 +59,25 @@ func transformList(c *core.Ctx, k *gen.Kit, schema []byte, recs []gen.Rec, o gen
 		omni.RunForeign()
 		c.Inc("lists_transformed_after_foreign_transforms")
 	}
-	tr := omni.RunAll(s, bytes.NewReader(input), omni.RunOpts{MaxReads: len(recs) + 10})
+	held := -1
+	tr := omni.RunAll(s, bytes.NewReader(input), omni.RunOpts{MaxReads: len(recs) + 10, Held: &held})
+	if held >= 0 {
+		// a record's output is the caller's: reading further records must not change it
+		c.Violate("C10:returned-bytes-changed-by-later-reads", fmt.Sprintf("the bytes Read returned for result %d were changed by later Reads", held),
+			map[string]interface{}{"format": k.Format, "schema": string(schema), "input": core.Trunc(string(input), 2000), "result_index": held, "bytes_at_return": tr[held].Bytes})
+	}
+	c.Inc("runs_holding_the_returned_slices")
 	reads := tr.Reads()
 	if len(reads) == 0 || reads[len(reads)-1].Class != omni.EOF {
 		return nil, "run did not end in EOF: " + core.Trunc(tr.Classes(), 200) + " / " + core.Trunc(reads[len(reads)-1].ErrMsg, 200), input
 	}
 	reads = reads[:len(reads)-1]
-	if len(reads) != len(recs) {
-		return nil, fmt.Sprintf("%d results for %d records", len(reads), len(recs)), input
+	want := len(recs)
+	if len(wantResults) > 0 {
+		want = wantResults[0]
+	}
+	if len(reads) != want {
+		return nil, fmt.Sprintf("%d results for %d records (%d expected)", len(reads), len(recs), want), input
 	}
 	out := make([]posResult, len(reads))
 	for i, st := range reads {
@@ -231,6 +242,56 @@ func runC10(c *core.Ctx) {
 					c.Violate("C10:"+format+":fail-replace:neighbour-changed:"+posDiff(fr[j], full[j]), fmt.Sprintf("failing record at position %d changed the result at position %d", i, j),
 						detail("fail-replace", fl, map[string]interface{}{"failing_position": i, "kind": kind, "position": j, "before": full[j], "after": fr[j]}))
 					break
+				}
+			}
+		}
+	}
+	// (d) records that are not targets (rejected by FINAL_OUTPUT's filter) leave no trace: T(L with non-targets put in) == T(L)
+	if (mode == gen.ModePass || mode == gen.ModeFailing || mode == gen.ModeRich) && format != "fixed-length" && format != "fixedlength2" {
+		// (fixed-length columns carry their padding, so the kits' filter on n rejects nothing there)
+		fschema := k.Schema(gen.ModeFilter)
+		var targets []gen.Rec
+		for _, rec := range recs {
+			if rec.Num != "0" {
+				targets = append(targets, rec)
+			}
+		}
+		var mixed []gen.Rec
+		inserted := 0
+		for i, rec := range targets {
+			if r.Chance(1, 3) {
+				nt := k.GenRec(r, 1000+i)
+				nt.Num = "0"
+				nt.Dup = false
+				if format == "csv" || format == "csv2" {
+					nt.F = append(nt.F, "surplus column of a non-target", "another one") // longer than its neighbours
+				}
+				mixed = append(mixed, nt)
+				inserted++
+			}
+			if (format == "csv" || format == "csv2") && r.Chance(1, 3) {
+				rec.Short = r.Range(1, 2)
+			}
+			targets[i] = rec
+			mixed = append(mixed, rec)
+		}
+		if inserted > 0 && len(targets) > 0 {
+			want, whyW, _ := transformList(c, k, fschema, targets, o)
+			got, whyG, in2 := transformList(c, k, fschema, mixed, o, len(targets))
+			switch {
+			case want == nil:
+				c.Inc("filter_relation_baseline_unavailable:" + core.Trunc(whyW, 40))
+			case got == nil:
+				c.Violate("C10:"+format+":non-targets-change-the-run", "putting records in that FINAL_OUTPUT's filter rejects changed how the run ends: "+whyG,
+					map[string]interface{}{"format": format, "schema": string(fschema), "input_with_non_targets": core.Trunc(string(in2), 3000)})
+			default:
+				note("non-targets-inserted")
+				for j := range want {
+					if got[j] != want[j] {
+						c.Violate("C10:"+format+":non-targets-inserted:"+posDiff(got[j], want[j]), fmt.Sprintf("putting in records that are not targets changed result %d", j),
+							map[string]interface{}{"format": format, "schema": string(fschema), "input_with_non_targets": core.Trunc(string(in2), 3000), "position": j, "without": want[j], "with": got[j]})
+						break
+					}
 				}
 			}
 		}
